@@ -15,6 +15,7 @@ package verifsim
 import (
 	"runtime"
 	"sync"
+	"sync/atomic"
 	"testing"
 	"testing/synctest"
 	"time"
@@ -160,11 +161,34 @@ type Sim struct {
 	trigw     [64]*task
 	ntrigw    int
 	force     int
+
+	// simulated sync.Cond waiters
+	condw  [256]condWaiter
+	ncondw int
+}
+
+type condWaiter struct {
+	c *sync.Cond
+	t *task
 }
 
 var active *Sim
 
+// Progress counts scheduler steps over the life of the process (read by the worker's
+// watchdog, which runs outside any bubble).
+var progress int64
+
+func Progress() int64 { return atomic.LoadInt64(&progress) }
+
+// act returns the running simulation. It is uninstrumented on purpose: goroutines that
+// outlive a run (e.g. after a reported deadlock) may still call into the runtime while
+// the next run starts, and that must never show up as a race of the code under test.
+//
+//go:norace
+func act() *Sim { return active }
+
 // Active reports whether a simulation is running (false = pass-through).
+//go:norace
 func Active() bool { return active != nil }
 
 //go:norace
@@ -587,6 +611,7 @@ func (s *Sim) loop() {
 			p.state = 0
 			s.last = p.id
 			s.Steps++
+			atomic.AddInt64(&progress, 1)
 			h := s.TraceHash
 			h = (h ^ uint64(p.id)) * 1099511628211
 			for i := 0; i < len(p.site); i++ {
@@ -647,3 +672,97 @@ func resetPerRun() {
 		f()
 	}
 }
+
+// ---- sync.Cond, played by the simulator (see simgen: x.Wait / x.Signal / x.Broadcast) ----
+
+// AsCond reports whether p points at a *sync.Cond (or a sync.Cond value) while a
+// simulation is active. Outside a simulation it always says no, so the real methods run.
+//go:norace
+func AsCond(p interface{}) (*sync.Cond, bool) {
+	if active == nil {
+		return nil, false
+	}
+	switch v := p.(type) {
+	case **sync.Cond:
+		return *v, *v != nil
+	case *sync.Cond:
+		return v, true
+	}
+	return nil, false
+}
+
+// CondWait is sync.Cond.Wait under the simulator: the caller holds c.L.
+//
+//go:norace
+func CondWait(c *sync.Cond, site string) {
+	s := active
+	if s == nil {
+		c.Wait()
+		return
+	}
+	raceDisable()
+	t := s.current()
+	t.site, t.kind = site, "condwait"
+	s.mu.Lock()
+	if s.ncondw >= len(s.condw) {
+		s.mu.Unlock()
+		raceEnable()
+		panic("verifsim: too many condition waiters")
+	}
+	s.condw[s.ncondw] = condWaiter{c, t}
+	s.ncondw++
+	t.state = 4
+	s.mu.Unlock()
+	raceEnable()
+	c.L.Unlock()
+	NotifyUnlock()
+	raceDisable()
+	s.poke()
+	<-t.wake
+	raceEnable()
+	if tl, ok := c.L.(interface{ TryLock() bool }); ok {
+		for !tl.TryLock() {
+			WaitUnlock(site)
+		}
+	} else {
+		c.L.Lock()
+	}
+}
+
+//go:norace
+func condRelease(c *sync.Cond, all bool) {
+	s := active
+	if s == nil {
+		if all {
+			c.Broadcast()
+		} else {
+			c.Signal()
+		}
+		return
+	}
+	raceDisable()
+	s.mu.Lock()
+	j := 0
+	released := false
+	for i := 0; i < s.ncondw; i++ {
+		w := s.condw[i]
+		if w.c == c && (all || !released) {
+			w.t.state = 1
+			s.parked[s.nparked] = w.t
+			s.nparked++
+			released = true
+			continue
+		}
+		s.condw[j] = w
+		j++
+	}
+	for i := j; i < s.ncondw; i++ {
+		s.condw[i] = condWaiter{}
+	}
+	s.ncondw = j
+	s.mu.Unlock()
+	raceEnable()
+}
+
+func CondSignal(c *sync.Cond)    { condRelease(c, false) }
+func CondBroadcast(c *sync.Cond) { condRelease(c, true) }
